@@ -239,6 +239,8 @@ type lenKey struct{ v ssa.Value }
 type capKey struct{ v ssa.Value }
 
 type boundsFn struct {
+	rep    map[ssa.Value]ssa.Value // pure load -> first load of the same immutable location
+	pure   map[ssa.Value]bool      // representatives of immutable locations (never forgotten)
 	alias  map[ssa.Value]ssa.Value // BinOp -> dominating identical BinOp (go/ssa does no CSE)
 	r      *core.Run
 	fn     *ssa.Function
@@ -304,8 +306,12 @@ func typeRange(t types.Type) (lo, hi int64, ok bool) {
 }
 
 // lenSource: the value whose length equals len(v) (through conversions).
-func lenSource(v ssa.Value) ssa.Value {
+func (b *boundsFn) lenSrc(v ssa.Value) ssa.Value {
 	for {
+		if r, ok := b.rep[v]; ok && r != v {
+			v = r
+			continue
+		}
 		switch x := v.(type) {
 		case *ssa.Convert:
 			if isSliceLike(x.X.Type()) && isSliceLike(x.Type()) {
@@ -370,7 +376,7 @@ func arrayLen(t types.Type) (int64, bool) {
 }
 
 func (b *boundsFn) lenVar(v ssa.Value) int {
-	v = lenSource(v)
+	v = b.lenSrc(v)
 	if i, ok := b.vars[lenKey{v}]; ok {
 		return i
 	}
@@ -440,7 +446,230 @@ func (b *boundsFn) findAliases() {
 	}
 }
 
+// immutableAlloc: a local that is written exactly once, by the store that spills a parameter into it,
+// and whose address is used only to read fields (go/ssa spills value receivers and parameters whose
+// fields are addressed).
+func immutableAlloc(a *ssa.Alloc) bool {
+	stores := 0
+	var okRefs func(v ssa.Value, top bool) bool
+	okRefs = func(v ssa.Value, top bool) bool {
+		refs := v.Referrers()
+		if refs == nil {
+			return false
+		}
+		for _, ref := range *refs {
+			switch x := ref.(type) {
+			case *ssa.Store:
+				if top && x.Addr == v {
+					if _, isParam := x.Val.(*ssa.Parameter); !isParam {
+						return false
+					}
+					stores++
+					continue
+				}
+				return false // stored through a field address, or the address itself escapes
+			case *ssa.FieldAddr:
+				if !okRefs(x, false) {
+					return false
+				}
+			case *ssa.IndexAddr:
+				if _, isArr := x.X.Type().Underlying().(*types.Pointer); !isArr || !okRefs(x, false) {
+					return false
+				}
+			case *ssa.UnOp:
+				if x.Op != token.MUL {
+					return false
+				}
+			case *ssa.DebugRef:
+			default:
+				return false
+			}
+		}
+		return true
+	}
+	return okRefs(a, true) && stores == 1
+}
+
+// findPureLoads: loads of the same field path of an immutable local, and Field extractions of the same
+// struct value, denote the same value wherever they occur.
+func (b *boundsFn) findPureLoads() {
+	b.rep = map[ssa.Value]ssa.Value{}
+	b.pure = map[ssa.Value]bool{}
+	imm := map[*ssa.Alloc]bool{}
+	rootOf := func(v ssa.Value) *ssa.Alloc {
+		for {
+			switch x := v.(type) {
+			case *ssa.FieldAddr:
+				v = x.X
+			case *ssa.Alloc:
+				return x
+			default:
+				return nil
+			}
+		}
+	}
+	first := map[string]ssa.Value{}
+	for _, blk := range b.fn.DomPreorder() {
+		for _, in := range blk.Instrs {
+			switch x := in.(type) {
+			case *ssa.UnOp:
+				if x.Op != token.MUL {
+					continue
+				}
+				root := rootOf(x.X)
+				if root == nil {
+					continue
+				}
+				ok, seen := imm[root]
+				if !seen {
+					ok = immutableAlloc(root)
+					imm[root] = ok
+				}
+				if !ok {
+					continue
+				}
+				k := "load " + canon(x.X) + fmt.Sprintf("@%p", root)
+				if f, has := first[k]; has {
+					b.rep[x] = f
+				} else {
+					first[k] = x
+					b.pure[x] = true
+				}
+			case *ssa.Field:
+				k := fmt.Sprintf("field %p.%d", x.X, x.Field)
+				if _, isInstr := x.X.(ssa.Instruction); !isInstr {
+					if prm, isP := x.X.(*ssa.Parameter); isP {
+						k = fmt.Sprintf("field param %s.%d", prm.Name(), x.Field)
+					}
+				}
+				if f, has := first[k]; has {
+					b.rep[x] = f
+				} else {
+					first[k] = x
+				}
+			}
+		}
+	}
+}
+
+// loadKey: structural name of a value built from parameters, constants, field/element addressing and loads.
+// Values of other instructions are named by identity, so equal keys mean equal operands.
+func loadKey(v ssa.Value, nested *[]*ssa.UnOp, depth int) string {
+	if depth > 8 {
+		return fmt.Sprintf("%p", v)
+	}
+	switch x := v.(type) {
+	case *ssa.Parameter:
+		return "p:" + x.Name()
+	case *ssa.Const:
+		if x.Value != nil {
+			return "c:" + x.Value.ExactString()
+		}
+		return "c:nil"
+	case *ssa.FieldAddr:
+		return loadKey(x.X, nested, depth+1) + fmt.Sprintf(".%d", x.Field)
+	case *ssa.Field:
+		return loadKey(x.X, nested, depth+1) + fmt.Sprintf(".f%d", x.Field)
+	case *ssa.IndexAddr:
+		return loadKey(x.X, nested, depth+1) + "[" + loadKey(x.Index, nested, depth+1) + "]"
+	case *ssa.UnOp:
+		if x.Op == token.MUL {
+			if nested != nil {
+				*nested = append(*nested, x)
+			}
+			return "*(" + loadKey(x.X, nested, depth+1) + ")"
+		}
+	}
+	return fmt.Sprintf("%p", v)
+}
+
+func isMemBarrier(in ssa.Instruction) bool {
+	switch x := in.(type) {
+	case *ssa.Store, *ssa.MapUpdate, *ssa.Send, *ssa.Go, *ssa.Defer, *ssa.RunDefers, *ssa.Select:
+		return true
+	case *ssa.Call:
+		if bi, ok := x.Call.Value.(*ssa.Builtin); ok {
+			switch bi.Name() {
+			case "len", "cap", "min", "max":
+				return false
+			}
+		}
+		return true
+	}
+	return false
+}
+
+// findChainLoads: a heap load that repeats an earlier load of the same location, with no store or call
+// in between on the (single-predecessor) path that connects them, yields the same value.
+func (b *boundsFn) findChainLoads() {
+	for _, blk := range b.fn.DomPreorder() {
+		for i, in := range blk.Instrs {
+			l2, ok := in.(*ssa.UnOp)
+			if !ok || l2.Op != token.MUL || b.pure[l2] {
+				continue
+			}
+			if _, done := b.rep[l2]; done {
+				continue
+			}
+			if !isSliceLike(l2.Type()) && !isAnyInt(l2.Type()) {
+				continue
+			}
+			k2 := loadKey(l2, nil, 0)
+			// scan backwards
+			scanned := map[ssa.Instruction]bool{}
+			var cand *ssa.UnOp
+			cur, pos := blk, i-1
+			steps := 0
+		scan:
+			for steps < 400 {
+				for ; pos >= 0; pos-- {
+					steps++
+					ins := cur.Instrs[pos]
+					if isMemBarrier(ins) {
+						break scan
+					}
+					scanned[ins] = true
+					if l1, isL := ins.(*ssa.UnOp); isL && l1.Op == token.MUL && cand == nil && types.Identical(l1.Type(), l2.Type()) && loadKey(l1, nil, 0) == k2 {
+						cand = l1
+					}
+				}
+				if len(cur.Preds) != 1 || cur.Preds[0] == cur {
+					break
+				}
+				cur = cur.Preds[0]
+				pos = len(cur.Instrs) - 1
+			}
+			if cand == nil {
+				continue
+			}
+			var nested []*ssa.UnOp
+			loadKey(cand, &nested, 0)
+			ok2 := true
+			for _, n := range nested {
+				if n == cand {
+					continue
+				}
+				if !scanned[n] && !b.pure[n] {
+					if _, isRep := b.rep[n]; !isRep {
+						ok2 = false
+					}
+				}
+			}
+			if !ok2 {
+				continue
+			}
+			r := ssa.Value(cand)
+			if rr, has := b.rep[cand]; has {
+				r = rr
+			}
+			b.rep[l2] = r
+		}
+	}
+}
+
 func (b *boundsFn) collectVars() {
+	b.findPureLoads()
+	b.findChainLoads()
 	b.findAliases()
 	b.varOf("zero", "0")
 	add := func(v ssa.Value) {
@@ -459,12 +688,14 @@ func (b *boundsFn) collectVars() {
 			}
 			if rep, isAlias := b.alias[v]; isAlias {
 				b.vars[v] = b.varOf(rep, rep.Name())
+			} else if rp, isRep := b.rep[v]; isRep {
+				b.vars[v] = b.varOf(rp, rp.Name())
 			} else {
 				b.varOf(v, v.Name())
 			}
 		}
 		if isSliceLike(t) {
-			s := lenSource(v)
+			s := b.lenSrc(v)
 			b.varOf(lenKey{s}, "len("+s.Name()+")")
 			if _, isSl := t.Underlying().(*types.Slice); isSl {
 				b.varOf(capKey{v}, "cap("+v.Name()+")")
@@ -515,7 +746,7 @@ func (b *boundsFn) forgetValue(d *dbm, v ssa.Value) {
 		d.forget(i)
 	}
 	if isSliceLike(v.Type()) {
-		if lenSource(v) == v {
+		if b.lenSrc(v) == v {
 			if l := b.lenVar(v); l >= 0 {
 				d.forget(l)
 			}
@@ -596,8 +827,78 @@ func (b *boundsFn) transfer(d *dbm, in ssa.Instruction) {
 	if _, isAlias := b.alias[v]; isAlias {
 		return // same value as a dominating identical operation
 	}
+	if _, isRep := b.rep[v]; isRep || b.pure[v] {
+		return // load of an immutable location: same value throughout the function
+	}
+	// an index expression that did not panic establishes 0 <= i < len for what follows
+	assumeIdx := func(X, idx ssa.Value) {
+		ii, ic, iC := b.intVar(idx)
+		if n, isArr := arrayLen(X.Type()); isArr {
+			if ii >= 0 {
+				d.add(0, ii, 0)
+				d.add(ii, 0, n-1)
+			}
+			return
+		}
+		l := b.lenVar(X)
+		if l < 0 {
+			return
+		}
+		if iC {
+			d.add(0, l, -(ic + 1))
+		} else if ii >= 0 {
+			d.add(0, ii, 0)
+			d.add(ii, l, -1)
+		}
+	}
 	switch x := in.(type) {
+	case *ssa.IndexAddr:
+		assumeIdx(x.X, x.Index)
+		return
+	case *ssa.Index:
+		b.forgetValue(d, v)
+		b.typeFacts(d, v)
+		assumeIdx(x.X, x.Index)
+		return
+	case *ssa.Lookup:
+		b.forgetValue(d, v)
+		b.typeFacts(d, v)
+		if isSliceLike(x.X.Type()) {
+			assumeIdx(x.X, x.Index)
+		}
+		return
 	case *ssa.BinOp:
+		if isSliceLike(v.Type()) && x.Op == token.ADD {
+			// string concatenation: len(v) = len(x) + len(y)
+			b.forgetValue(d, v)
+			b.typeFacts(d, v)
+			nl := b.lenVar(v)
+			strLen := func(o ssa.Value) (int, int64, bool) {
+				if k, isK := o.(*ssa.Const); isK && k.Value != nil && k.Value.Kind() == constant.String {
+					return -1, int64(len(constant.StringVal(k.Value))), true
+				}
+				return b.lenVar(o), 0, false
+			}
+			xi, xc, xC := strLen(x.X)
+			yi, yc, yC := strLen(x.Y)
+			if nl >= 0 {
+				switch {
+				case xC && yi >= 0 && yi != nl:
+					d.assign(nl, yi, xc)
+				case yC && xi >= 0 && xi != nl:
+					d.assign(nl, xi, yc)
+				case xi >= 0 && yi >= 0 && xi != nl && yi != nl:
+					if lo := d.get(0, yi); lo < bInf {
+						d.add(xi, nl, lo) // len(x) - len(v) <= -lo(y)
+					}
+					if lo := d.get(0, xi); lo < bInf {
+						d.add(yi, nl, lo)
+					}
+				}
+				d.add(0, nl, 0)
+			}
+			return
+		}
 		if _, ok := b.vars[v]; !ok {
 			return
 		}
@@ -743,7 +1044,7 @@ func (b *boundsFn) transfer(d *dbm, in ssa.Instruction) {
 			return
 		}
 		if isSliceLike(v.Type()) {
-			if lenSource(v) == v {
+			if b.lenSrc(v) == v {
 				b.forgetValue(d, v)
 			} else if c := b.capVar(v); c >= 0 {
 				d.forget(c)
@@ -1339,7 +1640,7 @@ func (b *boundsFn) edgeState(out *dbm, pred, succ *ssa.BasicBlock) *dbm {
 		if isSliceLike(v.Type()) {
 			nl := b.lenVar(v)
 			el := b.lenVar(e)
-			if nl >= 0 && lenSource(v) == v {
+			if nl >= 0 && b.lenSrc(v) == v {
 				d.forget(nl)
 				if k, isK := e.(*ssa.Const); isK {
 					n := int64(0)
@@ -1403,7 +1704,7 @@ func (b *boundsFn) phiVar(phis []*ssa.Phi, q int) (*ssa.Phi, bool) {
 			return ph, true
 		}
 		if isSliceLike(v.Type()) {
-			if lenSource(v) == v {
+			if b.lenSrc(v) == v {
 				if i, ok := b.vars[lenKey{v}]; ok && i == q {
 					return ph, true
 				}
@@ -1423,6 +1724,9 @@ func (b *boundsFn) entryState() *dbm {
 	}
 	for _, p := range b.fn.FreeVars {
 		b.typeFacts(d, p)
+	}
+	for v := range b.pure {
+		b.typeFacts(d, v)
 	}
 	return d
 }
@@ -1789,7 +2093,7 @@ func (b *boundsFn) summary() *boundsSummary {
 // ---------------------------------------------------------------------------
 
 func init() {
-	register(&Rule{ID: "R-BOUNDS", Props: []string{"C16", "C14", "C15"}, Doc: "every index and slice expression of the helper scanners is in range for every argument (difference-bound abstract interpretation)", Run: runBounds})
+	register(&Rule{ID: "R-BOUNDS", Props: []string{"C16", "C14", "C15", "C01", "C05", "C18", "C19"}, Doc: "every index and slice expression of the helper scanners is in range for every argument (difference-bound abstract interpretation)", Run: runBounds})
 }
 
 // boundsScope: functions claimed per property. Every index/slice obligation in
@@ -1888,9 +2192,53 @@ func (e *boundsEngine) get(fn *ssa.Function) *boundsFn {
 	return b
 }
 
+// AST methods that index values whose non-emptiness is a value-level invariant; not in scope.
+var boundsASTExcluded = map[string]string{
+	"(js.ExprStmt).String":     "indexes the result of Value.String(), non-empty for every node type (value-level)",
+	"(js.PropertyName).String": "indexes the result of Computed.String() (value-level)",
+	"(js.LiteralExpr).JSON":    "indexes token data, non-empty by the lexer's token grammar (value-level; R-PROGRESS shows tokens are non-empty)",
+	"(js.TemplateExpr).JSON":   "indexes token data (value-level)",
+	"(js.UnaryExpr).JSON":      "indexes token data (value-level)",
+	"(js.VarsByUses).Less":     "sort.Interface contract: i, j < Len()",
+	"(js.VarsByUses).Swap":     "sort.Interface contract: i, j < Len()",
+}
+
+// astMethodScope: every printing/conversion method of package js (and Walk for C01/C18).
+func astMethodScope(r *core.Run, prop string) []string {
+	var out []string
+	want := map[string]bool{"String": true, "JS": true, "JSON": true, "JSString": true, "JSONString": true}
+	if prop == "C05" {
+		want = map[string]bool{"JS": true, "JSString": true}
+	}
+	for _, fn := range allModuleFuncs(r) {
+		p := fnPkg(fn)
+		if p == nil || core.RelPkg(p) != "js" || fn.Parent() != nil || fn.Synthetic != "" {
+			continue
+		}
+		name := fnLabel(fn)
+		if fn.Signature.Recv() == nil {
+			if fn.Name() == "Walk" && prop != "C05" {
+				out = append(out, name)
+			}
+			continue
+		}
+		if prop == "C18" || !want[fn.Name()] {
+			continue
+		}
+		if _, ex := boundsASTExcluded[name]; ex {
+			continue
+		}
+		out = append(out, name)
+	}
+	return out
+}
+
 func runBounds(r *core.Run) {
 	e := &boundsEngine{r: r, glen: globalLens(r), done: map[*ssa.Function]*boundsFn{}, busy: map[*ssa.Function]bool{}, summs: map[*ssa.Function]*boundsSummary{}}
-	scope := boundsScope[r.Prop]
+	scope := append([]string{}, boundsScope[r.Prop]...)
+	if r.Prop == "C01" || r.Prop == "C05" || r.Prop == "C18" {
+		scope = append(scope, astMethodScope(r, r.Prop)...)
+	}
 	byName := map[string]*ssa.Function{}
 	for _, fn := range allModuleFuncs(r) {
 		byName[fnLabel(fn)] = fn
@@ -1919,7 +2267,7 @@ func runBounds(r *core.Run) {
 	r.Assumption("A-INTEXACT: arithmetic on values of type int does not overflow (operands are slice lengths plus small constants)")
 }
 
-var boundsFloor = map[string]int{"C16": 120, "C14": 18, "C15": 15}
+var boundsFloor = map[string]int{"C16": 120, "C14": 18, "C15": 15, "C01": 250, "C05": 24, "C18": 12, "C19": 40}
 
 // BoundsSurvey (debug): analyse every function of the given packages and print per-function results.
 func BoundsSurvey(r *core.Run, pkgs map[string]bool, verbose bool) {
